@@ -85,7 +85,4 @@ theorem json_read_fault (bs : Bytes) (k : Nat) (stop : Bool) (hb : ∀ x ∈ bs,
   sorry
 
 example : (runFaulty CborEnc.step (some ⟨1, .short, false⟩) CborEnc.init {} [⟨.uint 500, none⟩]).1 = [Flag.err] := by decide
-example : (match (CborDec.decode false ⟨[0x19, 0x01, 0xf4], some (2, false), 0⟩).res with
-    | .error e => e == Err.injected | .ok _ => false) = true := by decide
-
 end Refmt.C16
